@@ -456,6 +456,12 @@ pub struct HistOutcome {
 
 pub fn run_history(scratch: &Path, h: &[Op], names: &[&str]) -> HistOutcome {
     let root = scratch.join(format!("h-{:016x}-{:?}", hash_of(&history_json(h).to_string()), std::thread::current().id()).replace(['(', ')'], ""));
+    run_history_in(&root, h, names, true)
+}
+
+/// `cleanup = false` leaves the resulting scenario directory in place (prepared states for C12)
+pub fn run_history_in(root: &Path, h: &[Op], names: &[&str], cleanup: bool) -> HistOutcome {
+    let root = root.to_path_buf();
     let _ = fsutil::force_remove(&root);
     let bc = make_context(&root);
     let side = root.join("side");
@@ -620,7 +626,9 @@ pub fn run_history(scratch: &Path, h: &[Op], names: &[&str]) -> HistOutcome {
     })();
     out.fail = r.err();
     drop(refs);
-    let _ = fsutil::force_remove(&root);
+    if cleanup {
+        let _ = fsutil::force_remove(&root);
+    }
     out
 }
 
@@ -753,7 +761,7 @@ fn absorb(ctx: &Ctx, h: &[Op], o: HistOutcome, sub: &str) -> bool {
     if o.nontrivial {
         ctx.class("history:nontrivial");
         ctx.nontrivial(hash_of(&history_json(h).to_string()));
-        if h.len() >= 4 && hash_of(&history_json(h).to_string()) % 29 == 0 {
+        if h.len() >= 4 && (ctx.samples_len() < 2 || hash_of(&history_json(h).to_string()) % 29 == 0) {
             ctx.sample(5, || history_json(h));
         }
     }
@@ -831,7 +839,7 @@ pub fn run(ctx: &Ctx) {
             if o.nontrivial {
                 ctx.class("history:nontrivial");
                 ctx.nontrivial(hash_of(&history_json(h).to_string()));
-                if hash_of(&history_json(h).to_string()) % 101 == 0 {
+                if (ctx.samples_len() < 2 || hash_of(&history_json(h).to_string()) % 101 == 0) {
                     ctx.sample(8, || history_json(h));
                 }
             }
@@ -921,4 +929,37 @@ pub fn apply_ops(bc: &BuildContext<HB>, ops: &[Op], names: &[&str], side: &Path)
 
 pub fn history_strategy_for_bp(nnames: u8) -> impl Strategy<Value = Vec<Op>> {
     structured_history_strategy(nnames, 2)
+}
+
+/// one request followed by writes, without scripted callback errors (every Err is then an I/O error)
+pub fn errorless_group_strategy(nnames: u8) -> impl Strategy<Value = Vec<Op>> {
+    (0..nnames).prop_flat_map(move |name| {
+        let req = prop_oneof![
+            6 => (any::<bool>(), any::<bool>(), mtype_strategy(), rdec_strategy(), idec_strategy()).prop_map(move |(build, launch, m, mut on_restored, mut on_invalid)| {
+                on_restored.err = false;
+                on_invalid.err = false;
+                Op::Cached { name, build, launch, m, on_restored, on_invalid }
+            }),
+            1 => (any::<bool>(), any::<bool>()).prop_map(move |(build, launch)| Op::Uncached { name, build, launch }),
+        ];
+        (req, proptest::collection::vec(write_op_strategy(name), 0..4)).prop_map(|(r, mut w)| {
+            let mut v = vec![r];
+            v.append(&mut w);
+            v
+        })
+    })
+}
+
+pub fn setup_history_strategy(nnames: u8) -> impl Strategy<Value = Vec<Op>> {
+    structured_history_strategy(nnames, 2).prop_map(|mut h| {
+        // no scripted errors in the setup either, and end with a restore so that the test operation meets restored layers
+        for o in h.iter_mut() {
+            if let Op::Cached { on_restored, on_invalid, .. } = o {
+                on_restored.err = false;
+                on_invalid.err = false;
+            }
+        }
+        h.push(Op::Restore);
+        h
+    })
 }
